@@ -201,8 +201,41 @@ func (e *Engine) refineFacts(st *State) (facts []*Term, ok bool) {
 
 // satRefined asks stack ∧ extra with refinement. Result: "sat" (model consistent with the
 // real functions; solver left in the sat state, EndQuery pending), "unsat", or "unknown".
+// steering constraints restrict the search for a counterexample to the region where the
+// library models are exact (dotted-quad addresses, bracket-free host:port). They are only used
+// to find a model — which is validated against the real functions and replayed — never to
+// discharge an obligation.
+func (e *Engine) steering(st *State) *Term {
+	var cs []*Term
+	for _, a := range st.ufApps {
+		switch a.Def.Name {
+		case "parseip", "parsecidr":
+			cs = append(cs, Not(StrContains(a.Args[0], KStr(":"))))
+		case "splithostport":
+			cs = append(cs, Not(StrContains(a.Args[0], KStr("["))), Not(StrContains(a.Args[0], KStr("]"))))
+		}
+	}
+	if len(cs) == 0 {
+		return nil
+	}
+	return And(cs...)
+}
+
 func (e *Engine) satRefined(st *State, extra *Term) string {
-	for round := 0; round < 10; round++ {
+	if steer := e.steering(st); steer != nil {
+		x := steer
+		if extra != nil {
+			x = And(extra, steer)
+		}
+		if r := e.satRefinedRounds(st, x, 6); r == "sat" {
+			return r
+		}
+	}
+	return e.satRefinedRounds(st, extra, 10)
+}
+
+func (e *Engine) satRefinedRounds(st *State, extra *Term, rounds int) string {
+	for round := 0; round < rounds; round++ {
 		q := extra
 		if len(e.ufFacts) > 0 {
 			all := append([]*Term{}, e.ufFacts...)
@@ -212,6 +245,9 @@ func (e *Engine) satRefined(st *State, extra *Term) string {
 			q = And(all...)
 		}
 		r := e.sol.QueryFull(q)
+		if e.sol.Verbose {
+			fmt.Fprintln(os.Stderr, "REFINE round", round, "->", r)
+		}
 		if r != "sat" {
 			e.sol.EndQuery()
 			return r
